@@ -180,3 +180,14 @@ theorem calls_next_delivers {cap : Option Nat} {d' : Dec} {bytes p : List UInt8}
 end Rdr
 
 end Sml
+
+namespace Sml
+
+/-- the iterator encoder, polled `k` more times than the frame is long: the frame, then `None`s -/
+theorem Enc.run_frame_add (p : List UInt8) (k : Nat) :
+    ((Enc.new p).run ((Spec.frame p).length + k)).2 =
+      (Spec.frame p).map EOut.byte ++ List.replicate k EOut.none := by
+  obtain ⟨e', h, hst⟩ := Enc.run_frame p
+  rw [Enc.run_add_of h (Enc.run_fused hst k)]
+
+end Sml
